@@ -162,7 +162,8 @@ PROVED = {
         "state and first rune): total work and token count of the lexer linear; the fuel of the lexer's inner loops is never used up; once the lexer has "
         "ended its last token is EOF or an error; every parser iteration pulls a token under a non-final look-ahead, pops a frame, or is the last. "
         "Left to the correspondence run: the executable model's smaller budget for the parser loop (shared by the loops inside the parse methods) is "
-        "never used up; wall-clock time is measured: partial for these two reasons only.",
+        "never used up (and, on the smaller inputs of the corpus, the executable model is run next to the model under the proved budgets: same outcome, tree, "
+        "error and code); wall-clock time is measured: partial for these two reasons only.",
  "C07": "the writer's line/column counter is the end position of the generated text; every source-map entry points at the place its fragment was written; "
         "character k of a fragment sits where walking k characters from the target leads; end to end for one-line fragments the template position maps to "
         "the generated position holding the same character (byte columns; UTF-16 after non-ASCII is F15).",
